@@ -18,6 +18,8 @@ PINNED = [
     ("CT", "MC_CT_arr_pinned.cfg", "D9: array ct_ge by swapping arguments"),
     ("Counters", "MC_Counters_pinned.cfg", "D10: BLAKE2 counter += in a checked profile"),
     ("NonInterference", "MC_NonInterference_leaky.cfg", "leaky control-flow idioms"),
+    ("KdfLoops", "MC_KdfLoops_offbyone.cfg", "PBKDF2 iteration loop off by one"),
+    ("Barrett", "MC_Barrett_onesub.cfg", "Barrett reduction with a single conditional subtraction"),
 ]
 STATEFUL_OPS = {"update", "update_mut", "input", "process", "process_mut", "add_data", "encrypt", "encrypt_mut"}
 
